@@ -34,7 +34,12 @@ pub struct V7 {
     /// V7 Header
     pub header: Header,
     /// V7 Sets
-    #[nom(Count = "header.count")]
+    // A flow record takes 52 bytes: a count the input cannot hold is an error before any space
+    // is reserved for it.
+    #[nom(
+        ErrorIf = "usize::from(header.count).saturating_mul(52) > i.len()",
+        Count = "header.count"
+    )]
     pub flowsets: Vec<FlowSet>,
 }
 
